@@ -16,7 +16,9 @@ ap.add_argument('--profiles', default=','.join(S.PROFILES))
 ap.add_argument('--out', default=C.V + '/domains.json')
 ap.add_argument('--witness', action='store_true')
 ap.add_argument('--merge', action='store_true')
+ap.add_argument('--variants', default=','.join(S.VARIANTS))
 a = ap.parse_args()
+VARS = a.variants.split(',')
 ctx = C.Ctx('C99', 'quick', a.seed)
 ok, out = C.build_harness()
 assert ok, out
@@ -33,13 +35,13 @@ for prof in a.profiles.split(','):
     feats = {id(p): S.features(p, s) for p, s in keep}
     jobs = []
     for p, s in keep:
-        for v in S.VARIANTS:
+        for v in VARS:
             for par in S.pars_of(v):
                 jobs.append((p, v, par, S.budget_for(s[1])))
     impl, il, raw = S.run_impl(ctx, jobs, 'cal-i')
     k = 0
     for p, s in keep:
-        for v in S.VARIANTS:
+        for v in VARS:
             for par in S.pars_of(v):
                 key = '%s|%s|%d' % (prof, v, par)
                 cell = res.setdefault(key, {'n': 0, 'fail': 0, 'kinds': {}, 'n_without': {}, 'fail_without': {}})
@@ -58,6 +60,7 @@ for prof in a.profiles.split(','):
                         wit[key] = (p, v, par)
                 k += 1
     print(prof, 'done %.0fs' % (time.time() - t0), flush=True)
+    json.dump({'seed': a.seed, 'cells': res}, open(a.out, 'w'), indent=0, sort_keys=True)   # keep what is done so far
 json.dump({'seed': a.seed, 'cells': res}, open(a.out, 'w'), indent=0, sort_keys=True)
 if a.witness:
     outw = {}
